@@ -12,48 +12,181 @@ P = "mlinsights/mlmodel/piecewise_estimator.py"
 ESTM = ("fit", "predict", "predict_proba", "decision_function", "get_params", "set_params")
 
 
-def _estimator_obj(E, k, cls="PiecewiseRegressor"):
+lfF = z3.Function("leaf_position", models.Est, models.Row, z3.IntSort())      # ghost: which entry of leaves_ a row falls into
+
+
+def _wf_tree(E, st, leaves, mapping):
+    """well-formedness of a fitted tree-binned estimator: leaves_ are node ids of the tree and every row's decision path
+    contains exactly one of them (scikit-learn trees: a row ends in exactly one leaf - ASSUMED, stated as a precondition)"""
+    R = E.registry
+    row = z3.Const("rho!wf", models.Row)
+    t = z3.Int("t!wf")
+    L = z(leaves.length)
+    return {"at_least_one_leaf": L >= 1,
+            "leaves_are_nodes_of_the_tree": z3.ForAll([t], z3.Implies(z3.And(t >= 0, t < L), z3.And(leaves.get(t) >= 0, leaves.get(t) < R.nodesF(st)))),
+            "every_row_ends_in_exactly_one_leaf": z3.ForAll([row, t], z3.And(
+                lfF(st, row) >= 0, lfF(st, row) < L,
+                z3.Implies(z3.And(t >= 0, t < L), (R.pathF(st, row, leaves.get(t)) == 1) == (t == lfF(st, row)))))}
+
+
+def _bins_key(E, st, X, r, width):
+    """the dictionary key transform_bins computes for row r of X: tuple(int32(transform(X)[r, :]))"""
+    from pyvc import sparsemodel
+    from pyvc.npmodel import cast
+    arr = NdArr.from_fn("cell", (width,), "int", lambda c: cast(models.out2F["transform"](st, models.row_of(E, X, r), c), "int"))
+    return sparsemodel.tuple_key(arr)
+
+
+def _bucket_of_row(E, s, row):
+    b = s.fields["binner_"]
+    st = b.fields["$state"]
+    mp = s.fields["mapping_"]
+    if "tree_" in (b.fields.get("$fitted_attrs") or ()):
+        leaves = s.fields["leaves_"]
+        return mp.lookup(leaves.get(lfF(st, row)), -1)
+    from pyvc import sparsemodel
+    from pyvc.npmodel import cast
+    width = models.widthF["transform"](st)
+    arr = NdArr.from_fn("cell", (width,), "int", lambda c: cast(models.out2F["transform"](st, row, c), "int"))
+    return mp.lookup(sparsemodel.tuple_key(arr), -1)
+
+
+def bucket_of(E, s, X, r):
+    """THE ROUTING FUNCTION: the bucket id of row r of X under the fitted estimator s (-1: bucket unseen at training time):
+    the value mapping_ gives to the row's tree leaf / to tuple(int32(binner_.transform(row))), a function of the row alone"""
+    F = s.fields.get("$bucketF")
+    row = models.row_of(E, X, r)
+    return F(row) if F is not None else _bucket_of_row(E, s, row)
+
+
+def name_bucket_function(E, s, prop_fn):
+    """callers of transform_bins: name the routing function (definitional axiom) and prove once that its values are -1 or a
+    position of estimators_ (from the object invariant), then use that as a fact"""
+    F = z3.Function(models.fresh_name("bucket"), models.Row, z3.IntSort())
+    rho = z3.Const("rho!b", models.Row)
+    # F abbreviates _bucket_of_row (a definitional extension: conservative).  The definition itself is not handed to the solver -
+    # the only fact used about F is the range below, proved for the definition; transform_bins' proved postcondition
+    # (association[r] == _bucket_of_row(row r)) reads association[r] == F(row r) under the abbreviation.
+    k = len(s.fields["estimators_"])
+    rng = z3.ForAll([rho], z3.And(_bucket_of_row(E, s, rho) >= -1, _bucket_of_row(E, s, rho) < k))
+    E.oblige("C08.%s.lemma.bucket_ids_are_minus_one_or_a_position_of_a_local_model" % prop_fn, rng, "lemma")
+    E.assume(z3.ForAll([rho], z3.And(F(rho) >= -1, F(rho) < k), patterns=[F(rho)]))
+    s.fields["$bucketF"] = F
+    return F
+
+
+def _fitted_binned(E, kind, cls="PiecewiseRegressor", extra=None):
+    from pyvc.dicts import SymMap
+    from pyvc.values import SList
+    from pyvc import sparsemodel
+    binner_ = models.new_estimator(E, "binner_", methods=ESTM + ("transform", "decision_path"), fitted=True)
+    binner_.fields["$fitted_attrs"] = {"tree_"} if kind == "tree" else set()
+    f = dict(binner=models.new_estimator(E, "binner", methods=ESTM + ("transform", "decision_path")),
+             estimator=models.new_estimator(E, "estimator", methods=ESTM), n_jobs=None, verbose=False, binner_=binner_)
+    if kind == "tree":
+        f["leaves_"] = SList.fresh("leaves", z3.IntSort())
+        E.assume(f["leaves_"].length >= 0)
+        f["mapping_"] = SymMap.fresh("mapping", z3.IntSort())
+    else:
+        binner_.fields["$sparse_transform"] = True
+        f["mapping_"] = SymMap.fresh("mapping", sparsemodel.Key)
+    f.update(extra or {})
+    return E.new_obj(P + "::" + cls, f)
+
+
+def _estimator_obj(E, k, cls="PiecewiseRegressor", kind="bins"):
     members = [models.new_estimator(E, "local%d" % i, methods=ESTM, fitted=True) for i in range(k)]
     mean = models.new_estimator(E, "global", methods=ESTM, fitted=True)
     for m in members + [mean]:
         m.fields["classes_"] = NdArr.fresh("classes", (E.size("ncls", 2),), "int")
-    f = dict(binner=models.new_estimator(E, "binner", methods=ESTM + ("transform", "decision_path")),
-             estimator=models.new_estimator(E, "estimator", methods=ESTM), n_jobs=None, verbose=False,
-             estimators_=members, mean_estimator_=mean, dim_=1)
+    extra = dict(estimators_=members, mean_estimator_=mean, dim_=1)
     if cls == "PiecewiseClassifier":
-        f["random_state"] = None
-    return E.new_obj(P + "::" + cls, f)
+        extra["random_state"] = None
+    return _fitted_binned(E, kind, cls, extra)
 
 
-@contract(P + "::PiecewiseEstimator.transform_bins", "C08", assumed=True)
+def _wf_fitted(E, s):
+    """object invariant of a fitted piecewise estimator (established by fit): mapping_ sends buckets to positions of estimators_"""
+    mp = s.fields["mapping_"]
+    k = len(s.fields["estimators_"])
+    key = z3.Const("key!wf", mp.key_sort())
+    out = {"mapping_values_are_positions_of_local_models": z3.ForAll([key], z3.Implies(z3.Select(mp.member, key), z3.And(
+        z3.Select(mp.value, key) >= 0, z3.Select(mp.value, key) < k)))}
+    b = s.fields["binner_"]
+    if "tree_" in (b.fields.get("$fitted_attrs") or ()):
+        out.update(_wf_tree(E, b.fields["$state"], s.fields["leaves_"], mp))
+    return out
+
+
+@contract(P + "::PiecewiseEstimator.transform_bins", "C08")
 class TransformBins(Contract):
-    """ASSUMED here (decision_path / sparse matrix plumbing): one bucket id per row, -1 if the bucket was not seen at training time;
-    the id is a function of the fitted binner and the row alone"""
+    """PROVED: every row gets exactly one bucket id - the id its tree leaf / discretizer cell was given at training time, -1 if that
+    bucket was not seen; the id is a function of the fitted estimator and the row alone (bucket_of)"""
+    variants = ["tree", "bins"]
+
+    def setup(self, E, v):
+        return dict(self=_fitted_binned(E, v), X=E.nd("X", (E.size("n", 0), E.size("d", 1))))
+
+    def requires(self, E, a):
+        s = a.self
+        b = s.fields["binner_"]
+        if "tree_" in (b.fields.get("$fitted_attrs") or ()):
+            return _wf_tree(E, b.fields["$state"], s.fields["leaves_"], s.fields["mapping_"])
+        return {}
+
+    def old(self, E, a):
+        return dict(X=a.X.snapshot(), w=a.X.cell.writes)
+
+    @staticmethod
+    def _tree_inv(E, L):
+        s, X, assoc = L["self"], L["X"], L["association"]
+        st = s.fields["binner_"].fields["$state"]
+        leaves, mp = s.fields["leaves_"], s.fields["mapping_"]
+        lf = lambda r: lfF(st, models.row_of(E, X, r))
+        return {"rows_of_the_leaves_seen_so_far_have_their_bucket_the_others_minus_one": E.forall_range(
+            [(0, z(X.shape[0]))], lambda r: assoc.get(r) == z3.ToReal(z3.If(lf(r) < z(L.k), mp.lookup(leaves.get(lf(r)), -1), -1)))}
+
+    @staticmethod
+    def _bins_inv(E, L):
+        s, X, assoc = L["self"], L["X"], L["association"]
+        return {"rows_seen_so_far_have_their_bucket_the_others_minus_one": E.forall_range(
+            [(0, z(X.shape[0]))], lambda r: assoc.get(r) == z3.ToReal(z3.If(r < z(L.k), bucket_of(E, s, X, r), -1)))}
+    loops = {0: _tree_inv.__func__, 1: _bins_inv.__func__}
 
     def result(self, E, a, old):
-        n = a.X.shape[0]
-        k = len(a.self.fields["estimators_"])
-        assoc = NdArr.fresh("association", (n,), "int")
-        bucketF = a.self.fields.setdefault("$bucketF", z3.Function(models.fresh_name("bucket"), models.Row, z3.IntSort()))
-        r = z3.Int(models.fresh_name("r"))
-        fx = a.X.snapshot()
-        E.assume(z3.ForAll([r], z3.Implies(z3.And(r >= 0, r < z(n)), z3.And(
-            assoc.cell.term[r] == bucketF(models.row_of(E, fx, r)),
-            bucketF(models.row_of(E, fx, r)) >= -1, bucketF(models.row_of(E, fx, r)) < k))))
+        assoc = NdArr.fresh("association", (a.X.shape[0],), "real")
         E.ps["c08_assoc"] = assoc
         return assoc
 
+    def ensures(self, E, a, res, old, shifted=False):
+        ok = isinstance(res, NdArr) and res.ndim == 1
+        out = {"one_bucket_id_per_row": z3.BoolVal(ok) if not ok else z(res.shape[0]) == z(a.X.shape[0])}
+        if ok:
+            X = old["X"]
+            out["the_id_is_the_bucket_of_the_row_or_minus_one_if_unseen"] = E.forall_range(
+                [(0, z(a.X.shape[0]))], lambda r: res.get(r) == z3.ToReal(bucket_of(E, a.self, X, r) + (1 if shifted else 0)))
+            out["input_not_written"] = z3.BoolVal(a.X.cell.writes == old["w"])
+        return out
+
+    canaries = {"ids_shifted_by_one": lambda E, a, res, old: TransformBins().ensures(E, a, res, old, shifted=True).get(
+        "the_id_is_the_bucket_of_the_row_or_minus_one_if_unseen", z3.BoolVal(True))}
+
 
 class ApplyBase(Contract):
-    variants = [1, 2, 3]
+    variants = [(k, kind) for k in (1, 2, 3) for kind in ("bins", "tree")]
     cls = "PiecewiseRegressor"
     method = "predict"
     max_paths = 20000
 
-    def setup(self, E, k):
-        return dict(self=_estimator_obj(E, k, self.cls), X=E.nd("X", (E.size("n", 0), E.size("d", 1))))
+    def setup(self, E, v):
+        k, kind = v
+        return dict(self=_estimator_obj(E, k, self.cls, kind), X=E.nd("X", (E.size("n", 0), E.size("d", 1))))
+
+    def requires(self, E, a):
+        return _wf_fitted(E, a.self)
 
     def old(self, E, a):
+        name_bucket_function(E, a.self, "%s.%s" % (self.cls, self.method))
         return dict(X=a.X.snapshot(), w=a.X.cell.writes, tl=len(E.trace),
                     ev=[len(m.events) for m in a.self.fields["estimators_"] + [a.self.fields["mean_estimator_"]]])
 
@@ -66,8 +199,7 @@ class ApplyBase(Contract):
         s = a.self
         members = s.fields["estimators_"]
         k = len(members)
-        bucketF = s.fields.get("$bucketF")
-        ok = isinstance(res, NdArr) and bucketF is not None
+        ok = isinstance(res, NdArr)
         out = {"array": z3.BoolVal(ok), "input_not_written": z3.BoolVal(a.X.cell.writes == old["w"]),
                "no_model_is_refitted": z3.BoolVal(all(len(m.events) == e for m, e in zip(members + [s.fields["mean_estimator_"]], old["ev"])))}
         if not ok:
@@ -76,7 +208,7 @@ class ApplyBase(Contract):
         X = old["X"]
 
         def expected(r, c):
-            b = bucketF(models.row_of(E, X, r))
+            b = bucket_of(E, s, X, r)
             v = self.value(E, s.fields["mean_estimator_"].fields["$state"], X, r, c)       # unseen bucket: global fallback model
             order = list(range(k))
             for i in reversed(order):
@@ -106,8 +238,8 @@ class ClfProba(ApplyBase):
     cls = "PiecewiseClassifier"
     method = "predict_proba"
 
-    def setup(self, E, k):
-        a = ApplyBase.setup(self, E, k)
+    def setup(self, E, v):
+        a = ApplyBase.setup(self, E, v)
         w = E.size("ncls", 2)
         s = a["self"]
         for m in s.fields["estimators_"] + [s.fields["mean_estimator_"]]:
@@ -259,8 +391,13 @@ class Fit(Contract):
 
 META = dict(
     level="proof", assumptions=["A1", "A2", "A6", "A7", "A8", "A9"],
-    trusted=["transform_bins and _mapping_train are ASSUMED (sparse decision_path / KBinsDiscretizer plumbing): one bucket id per row as a function of the "
-             "fitted binner and the row, -1 for an unseen bucket, a bijection onto [0, nb) at training time",
+    trusted=["_mapping_train is ASSUMED (training-time construction of mapping_ / leaves_): one bucket id in [0, nb) per training row, nb entries",
+             "object invariant of a fitted estimator, stated as a PRECONDITION of predict / transform_bins (established by fit, whose proof covers it only "
+             "through the assumed _mapping_train): mapping_ sends bucket keys to positions of estimators_; for a tree binner leaves_ are node ids and "
+             "every row's decision path contains exactly one of them (scikit-learn trees - assumed)",
+             "ASSUMED scipy/scikit-learn models (pyvc/sparsemodel.py): a sparse matrix stands for a dense array (m[:, j], m == c, row iteration, "
+             ".todense()); decision_path / transform are row-wise functions of the fitted binner; tuple(row) of an integer row is a key that is a "
+             "function of the row's entries",
              "numpy boolean-mask gather/scatter through ghost rank/unrank/count (mask_rank lemma); estimator protocol (row-wise deterministic outputs); "
              "A8: joblib.Parallel is sequential map - thread schedules are not explored"],
     not_applicable=["bounded in the number of buckets (1..3 at predict time, 1..2 at fit time), complete in rows and values",
